@@ -280,7 +280,12 @@ _OPERATOR_NS = _types.SimpleNamespace(**{n: _OpFn(n) for n in list(_OP_BIN) + li
 
 # only pure, side-effect free names of external modules are visible to interpreted code
 _EXT_MODULES = {"re": re, "string": string,
-                "functools": _types.SimpleNamespace(reduce=_functools_mod.reduce, partial=_Partial),
+                "functools": _types.SimpleNamespace(reduce=_functools_mod.reduce, partial=_Partial,
+                                                    # the interpreter never caches: a cache wrapper IS the wrapped function (call form
+                                                    # `NAME = functools.lru_cache(maxsize=N)(f)` as well as the decorator form)
+                                                    cache=lambda f: f,
+                                                    lru_cache=lambda *a, **k: a[0] if len(a) == 1 and not k and not isinstance(a[0], (int, type(None))) else (lambda f: f),
+                                                    wraps=lambda *a, **k: (lambda f: f)),
                 "itertools": _types.SimpleNamespace(**{n: getattr(_itertools_mod, n) for n in (
                     "chain", "pairwise", "product", "groupby", "takewhile", "dropwhile", "islice", "zip_longest", "repeat",
                     "accumulate", "starmap", "combinations", "permutations", "count", "cycle", "compress", "filterfalse", "tee")}),
@@ -529,6 +534,20 @@ class Interp:
             c, expr = v.ci.find_attr(name)
             if c is not None:
                 return EnumVal(v.ci, name, self._class_attr(c, name))
+            init = v.ci.find_method("__init__")
+            if init is not None:
+                # an Enum with an __init__: every member is initialised once from its (tuple) value and keeps the attributes
+                # that __init__ stored on it
+                key = (v.ci.qualname, v.name)
+                cache = self.__dict__.setdefault("_enum_member_fields", {})
+                if key not in cache:
+                    cache[key] = None         # (guards against recursion through __init__)
+                    holder = Obj(v.ci)
+                    vals = list(v.value) if isinstance(v.value, tuple) else [v.value]
+                    self._call_func(init, [holder] + vals, {}, node)
+                    cache[key] = dict(holder.fields)
+                if cache[key] is not None and name in cache[key]:
+                    return cache[key][name]
         nt = self._nt_by_type.get(type(v))
         if nt is not None and name not in ("count", "index"):
             m = nt.find_method(name)
